@@ -32,7 +32,7 @@ TEXT = {
  "C16": ("C16_no_lost_wakeup: in every reachable state, if the receiver is blocked in its select! and anything is deliverable now (plain, priority, or a live expired timer, whether already in the map or still a Create in the command channel) then a non-timeout arm of that select! is ready now; C16_timeout_truthful: the timeout arm fires only after the timeout and only if nothing is deliverable. The wait set is re-read from the source each run (C16_gen_obligation). 57 timed scenarios (receiver blocked in receive()/receive_timeout(), another thread sends plain/priority/timer/cancel) are run on the real queue, with a watchdog, and replayed on the model.",
          "Trusted: Coq kernel; crossbeam select! wakes within bounded time when an arm is ready (oracle; > 1 s is reported); translator for the select! arms.",
          "Coq invariant proof (safety form of liveness) + per-run obligation on the regenerated select! arms + timed scenarios", "DESIGN.md 4 (C16)"),
- "C03": ("C03_lifecycle_regular proves that for EVERY script — any controller calls, any poll events, any adapter answers (pending status, chunks, read status, accepted items), any controller calls made by user code inside any callback, any controller calls racing the processor after its lookup and before its deregister — the observable trace of the model of driver.rs/registry.rs is accepted by the lifecycle automaton that states the property (Connected once and only for an endpoint connect() returned; Accepted only with a real listener; Message only while established; Disconnected only while established and never after a successful remove(); nothing after the end; no id twice). The real Driver is run against the same scripts through a scripted mock adapter mounted by a hook and pumped directly; traces are compared item by item and judged by the same (extracted) automaton.",
+ "C03": ("C03_lifecycle_regular proves that for EVERY script — any controller calls, any poll events, any adapter answers (pending status, chunks, read status, accepted items), any controller calls made by user code inside any callback, any controller calls racing the processor after its lookup and before its deregister — the observable trace of the model of driver.rs/registry.rs is accepted by the lifecycle automaton that states the property (Connected once and only for an endpoint connect() returned; Accepted only with a real listener; Message only while established; Disconnected only while established and never after a successful remove(); nothing after the end; no id twice). The real Driver is run against the same scripts through a scripted mock adapter mounted by a hook and pumped directly; traces are compared item by item and judged by the same (extracted) automaton. connect_sync: C03_connect_sync_truthful_outside_K1 proves, for every script and every moment at which connect_sync may poll is_ready(), that Ok is answered only for a connection whose Connected(_, true) was delivered and that is not disconnected, ConnectionRefused only for one that was never established, and that polling continues only while neither outcome was delivered -- outside the recorded known class K1 (established and already closed by the peer: C03_connect_sync_full_statement_refuted is the model witness, known_findings.json the record; the check prints KNOWN-FINDING for it). Real sockets: scripted raw / tungstenite peers (accept and hold, refuse, slow handshake, accept and close, FIN/RST at every stage, data then FIN in one burst, hostile handshakes) on Tcp/FramedTcp/Ws/Udp with the lifecycle automaton over each node's event log (net_life, net_sync).",
          "Trusted: Coq kernel; RwLock atomicity of the registry (oracle); hand-written model tied by script correspondence; what real sockets answer as adapter statuses is an oracle (sampled separately).",
          "Coq invariant proof over an adversarial-adapter LTS + scripted mock-adapter step correspondence", "DESIGN.md 4 (C03)"),
  "C04": ("C04_end_exactly_once proves for every script (incl. removes inside callbacks and removes racing the driver between the adapter's Disconnected and the deregister) that per connection id (#remove()->true) + (#Disconnected) <= 1 and that afterwards the registry has no entry, so send/is_ready/remove answer ResourceNotFound/None/false without reaching the adapter (C04_after_end). Mock-adapter correspondence as C03, plus real-thread races: 8 threads removing one id, and remove() racing the processor's deregister (both outcomes occur and are checked).",
